@@ -1,0 +1,16 @@
+//go:build verif
+// +build verif
+
+package controllers
+
+import (
+	"github.com/kubewharf/kubegateway/pkg/syncqueue"
+)
+
+// Verification hooks (build tag "verif"): thin exports only, no behaviour.
+
+// VerifSync delivers one event object to the controller's sync handler, the
+// way a queue worker does.
+func (m *UpstreamClusterController) VerifSync(obj interface{}) (syncqueue.Result, error) {
+	return m.syncUpstreamCluster(obj)
+}
